@@ -31,6 +31,7 @@ class Obligation:
     system_replay: Optional[Callable] = None  # (cex) -> (reproduced, detail) through the public API
     setup: Optional[Callable] = None  # run once in the worker before exploring (warm-up)
     collect_all: bool = False
+    alternatives: List[Callable] = field(default_factory=list)  # see DESIGN 3.5: per-program oracle variants
 
 
 def fn_fingerprint(f) -> dict:
@@ -80,6 +81,21 @@ def _run_one(args):
         opts = dict(per_path_timeout=30.0, total_timeout=150.0, vc_timeout=10.0)
         opts.update(ob.opts)
         res = E.explore(ob.harness, oid, stop_on_violation=not ob.collect_all, **opts)
+        if res.status == "violation" and ob.alternatives:
+            # The oracle admits a family of behaviours (a fixed per-program relabelling of i.i.d. draws,
+            # any activation set of measure p): each variant is a separate complete exploration.
+            t_alt = time.time()
+            for k, alt in enumerate(ob.alternatives):
+                if time.time() - t_alt > float(ob.opts.get("alt_budget", 300.0)):
+                    break
+                r2 = E.explore(alt, f"{oid}/alt{k + 1}", **opts)
+                if r2.status == "holds":
+                    r2.notes.append(f"holds under oracle variant {k + 1} (primary variant refuted: "
+                                    f"{(res.counterexample or {}).get('label')})")
+                    r2.paths += res.paths
+                    r2.vcs += res.vcs
+                    res = r2
+                    break
         out.update(res.to_json())
         out["branch_fallbacks"] = dict(E._branch_stats)
         if res.status == "violation" and ob.system_replay is not None:
